@@ -639,3 +639,8 @@ func (s *Sim) Inline(fn func()) {
 	defer func() { S = nil }()
 	fn()
 }
+
+// Done reports whether the task has finished.
+//
+//go:norace
+func (t *Task) Done() bool { return t.done }
